@@ -61,6 +61,8 @@ def _run_variant(args):
             err = None
         except AnalysisError as e:
             keys, err = [], str(e)
+        except Exception as e:   # the driver turns any internal error into exit 2 as well
+            keys, err = [], "internal error in the checker: %r" % (e,)
         new = [k for k in keys if tuple(k) not in {tuple(b) for b in base}]
         if v["kind"] == "fire":
             hit = [k for k in new if k[0] == v["rule"] or (v["rule"].endswith("*") and k[0].startswith(v["rule"][:-1]))]
